@@ -1,11 +1,11 @@
 package props
 
 import (
-	"math"
 	"bytes"
 	"encoding/base64"
 	"encoding/json"
 	"fmt"
+	"math"
 	"os"
 	"os/exec"
 	"path/filepath"
